@@ -173,11 +173,28 @@ theorem mergeT_node_ok {c : LinComb} {ts fs : List TVal} {r : TVal} {n n' : Nat}
     (h : mergeT c (.node ts) (.node fs) n s = .ok ((r, n'), s')) :
     ∃ rs, mergeTL c ts fs n s = .ok ((rs, n'), s') ∧ r = .node rs := by
   unfold mergeT at h
+  split at h
+  case isFalse => exact (raise_ok.mp h).elim
   obtain ⟨⟨rs, n1⟩, s1, h1, h2⟩ := bind_ok.mp h
   obtain ⟨h3, rfl⟩ := pure_ok' h2
   simp only [Prod.mk.injEq] at h3
   obtain ⟨rfl, rfl⟩ := h3
   exact ⟨rs, h1, rfl⟩
+
+/-- a completed merge of two lists: the lists had the same length -/
+theorem mergeT_node_len {c : LinComb} {ts fs : List TVal} {r : TVal} {n n' : Nat} {s s' : St}
+    (h : mergeT c (.node ts) (.node fs) n s = .ok ((r, n'), s')) : ts.length = fs.length := by
+  unfold mergeT at h
+  split at h
+  case isTrue hl => exact hl
+  case isFalse => exact (raise_ok.mp h).elim
+
+/-- `if len(truev) != len(falsev): raise ValueError(…)`: in every state, before anything is merged -/
+theorem mergeT_len_refused {c : LinComb} {ts fs : List TVal} (n : Nat) (s : St) (hl : ts.length ≠ fs.length) :
+    mergeT c (.node ts) (.node fs) n s = .error .value := by
+  unfold mergeT
+  rw [if_neg hl]
+  rfl
 
 theorem mergeT_mixed_ok {c : LinComb} {t f r : TVal} {n n' : Nat} {s s' : St}
     (h : mergeT c t f n s = .ok ((r, n'), s')) :
